@@ -45,7 +45,8 @@ class G(object):
         return {"f": float(x).hex()}
 
     def i(self, lo, hi):
-        return {"i": self.rng.randint(lo, hi)}
+        # lo/hi: the range this integer was drawn from (used only by the scan workload, to stay inside it)
+        return {"i": self.rng.randint(lo, hi), "lo": lo, "hi": hi}
 
     def iv(self, n):
         return {"i": int(n)}
@@ -179,12 +180,21 @@ class G(object):
             return {}
         if r < 0.75:
             return {"utc": {"b": True}}
-        if r < 0.85:
+        if r < 0.83:
             return {"leap_seconds": self.num(10, 40)}
+        if r < 0.88:
+            # two keywords, spelled in either order (equal arguments either way)
+            kw = [("utc", {"b": self.rng.random() < 0.8}), ("leap_seconds", self.num(10, 40))]
+            if self.rng.random() < 0.5:
+                kw.reverse()
+            return dict(kw)
         if allow_local:
             self.probes.append('local_kw')
             if self.rng.random() < 0.3:
-                return {"local": {"b": True}, "leap_seconds": self.num(10, 40)}
+                kw = [("local", {"b": True}), ("leap_seconds", self.num(10, 40))]
+                if self.rng.random() < 0.5:
+                    kw.reverse()
+                return dict(kw)
             return {"local": {"b": True}}
         return {}
 
